@@ -6,6 +6,8 @@ import TrucModel.Model.Static
 import TrucModel.Model.CloneSerde
 import TrucModel.Model.TypeName
 import TrucModel.Model.MachineWF
+import TrucModel.Model.Resolver
+import TrucModel.Model.GenCheck
 /-
   Line-protocol driver (channel L): one request per line on stdin, one answer per line on stdout.
 -/
@@ -370,6 +372,8 @@ def labEnv : TyEnv :=
 end P
 
 structure DState where
+  tables : List (Nat × Res.Table) := []    -- the synthetic resolver tables announced by `tbl` lines (kept across `reset`)
+  table : Nat := 0                          -- the one this history's builder was created with
   b : BState := {}
   built : Option Definition := none
   dead : Bool := false     -- a panic happened: the Rust side stops the history too
@@ -385,14 +389,23 @@ def dstep (s : DState) (line : String) : DState × String :=
     (s, match TN.normalize arg with | some n => "some " ++ n | none => "none")
   else
   match line.trimAscii.toString.splitOn " " with
-  | "reset" :: _ => ({}, "--")
+  | "reset" :: rest => ({ tables := s.tables, table := ((rest[1]?).bind String.toNat?).getD 0 }, "--")
+  | ["tbl", k, name, size, align, un] =>
+    match k.toNat?, size.toNat?, align.toNat? with
+    | some k, some sz, some al =>
+      let nm := name.replace "_" " "
+      let old := (s.tables.lookup k).getD []
+      match Res.register old nm ⟨nm, sz, al, un == "1"⟩ with
+      | some t => ({ s with tables := (k, t) :: s.tables.filter (fun p => p.1 != k) }, "--")
+      | none => (s, "--")
+    | _, _, _ => (s, "bad-op")
   | "vec" :: toks => (s, V.run toks)
   | ["xmod", extra] =>
     match s.built, extra.toNat? with
     | some d, some ex =>
       match d.maxSize with
       | some ms => ({ s with xs := { specs := Gen.specs d, cap := ms + ex, align := d.maxTypeAlign, regs := [] } },
-          s!"ok wf={Mach.moduleWFB X.droppable (ms + ex) (Gen.specs d)}")
+          s!"ok wf={Mach.moduleWFB X.droppable (ms + ex) (Gen.specs d)} chk={(Gen.specs d).all Gen.variantChecks}")
       | none => (s, "panic")
     | _, _ => (s, "bad-op")
   | "x" :: toks =>
@@ -401,13 +414,37 @@ def dstep (s : DState) (line : String) : DState × String :=
   | cmd =>
     if s.dead then (s, "dead") else
     match cmd with
-    | "add" :: name :: ty :: size :: align :: un :: _ =>
+    | "add" :: name :: ty :: size :: align :: un :: rest =>
       match size.toNat?, align.toNat? with
       | some sz, some al =>
-        let (b, r) := s.b.addDatum ⟨name, ty.replace "_" " ", sz, al, UNSET, un == "1"⟩
-        ({ s with b := b }, match r with | .ok id => s!"ok {id}" | .error e => s!"err {errStr e}")
+        let tyn := ty.replace "_" " "
+        let tbl := (s.tables.lookup s.table).getD []
+        -- the entry point named by the request decides where the numbers come from: the explicit ones of the request
+        -- (full override, generic builder, copy) or the resolver's table (typed / dynamic / partial overrides)
+        let info : Option Info := match rest.head? with
+          | some "typed" => Res.entryInfo tbl name (.typed tyn)
+          | some "uninit" => Res.entryInfo tbl name (.typedUninit tyn)
+          | some "dynamic" => Res.entryInfo tbl name (.dynamic tyn)
+          | some "ovr-n" => Res.entryInfo tbl name (.override tyn {})
+          | some "ovr-s" => Res.entryInfo tbl name (.override tyn { size := some sz, uninit := some (un == "1") })
+          | some "ovr-a" => Res.entryInfo tbl name (.override tyn { align := some al, uninit := some (un == "1") })
+          | some "copy" => Res.entryInfo tbl name (.copy ⟨name, tyn, sz, al, 1234, un == "1"⟩)
+          | _ => some ⟨name, tyn, sz, al, UNSET, un == "1"⟩
+        match info with
+        | none => (s, "refused")
+        | some i =>
+          let (b, r) := s.b.addDatum i
+          ({ s with b := b }, match r with | .ok id => s!"ok {id}" | .error e => s!"err {errStr e}")
       | _, _ => (s, "bad-op")
-    | ["unreg", _] => (s, "refused")     -- a type the resolver's table does not contain: every entry point refuses it
+    | ["unreg", k] =>
+      -- a type the resolver's table does not contain: every entry point that consults the resolver refuses it
+      let tbl := (s.tables.lookup s.table).getD []
+      let e : Res.EntryPoint := match k.toNat?.getD 0 % 4 with
+        | 0 => .typed "Vec < u32 >"
+        | 1 => .typedUninit "[u32 ; 11]"
+        | 2 => .dynamic "Option<Option<u8>>"
+        | _ => .override "(u8 , u64)" { align := some 2 }
+      (s, match Res.entryInfo tbl "zz" e with | none => "refused" | some _ => "accepted")
     | ["rm", id] =>
       match id.toNat? with
       | some id =>
